@@ -20,8 +20,8 @@ ID = "C17"
 CASES = {"quick": 640, "thorough": 8000}
 FLOOR = {"quick": 450, "thorough": 6000}
 FLOOR_COUNTERS = {
-    "quick": {"queries_sharing_a_coordinate": 150, "bandwidths_judged": 3000, "queries_judged": 2500, "assignments_judged": 30000, "degenerate_cloud_models": 80, "periodic_models": 100, "relation_pairs": 900, "oas_calls_seen": 3000},
-    "thorough": {"queries_sharing_a_coordinate": 2000, "bandwidths_judged": 45000, "queries_judged": 35000, "assignments_judged": 450000, "degenerate_cloud_models": 1000, "periodic_models": 1300, "relation_pairs": 12000, "oas_calls_seen": 45000},
+    "quick": {"queries_sharing_a_coordinate": 150, "bandwidths_judged": 3000, "queries_judged": 2500, "assignments_judged": 30000, "degenerate_cloud_models": 80, "periodic_models": 100, "relation_pairs": 900, "oas_calls_seen": 3000, "estimators_with_a_past": 120},
+    "thorough": {"queries_sharing_a_coordinate": 2000, "bandwidths_judged": 45000, "queries_judged": 35000, "assignments_judged": 450000, "degenerate_cloud_models": 1000, "periodic_models": 1300, "relation_pairs": 12000, "oas_calls_seen": 45000, "estimators_with_a_past": 1800},
 }
 RULE = (
     "case = descriptor cloud (1-4 dimensions, 30-160 points; multi-modal / anisotropic / collinear / constant coordinate / "
@@ -106,6 +106,7 @@ def gen(rng, tier, index):
         "G": G,
         "M": M,
         "gseed": int(rng.integers(1 << 30)),
+        "past": bool(rng.random() < 0.35),  # the estimator was fitted to another grid and evaluated before
         "loc": loc,
         "Q": Qq,
         "t": rng.normal(size=d) * 5,
@@ -237,12 +238,36 @@ def _covariance_reference(X, sample_weights, cell):
     return cov / (1 - np.sum(w**2))
 
 
-def _model(case, D, w, G, cell, probe):
+def _model(case, D, w, G, cell, probe, past=True):
     from skmatter.neighbors import SparseKDE
 
     mp = None if cell is None else {"cell_length": cell.copy()}
+    est = None
+    if case.get("past") and past:
+        # an estimator with a past: fit on another grid (other size), evaluate (fills whatever is derived lazily from
+        # the bandwidths), then fit the grid of the case; a decoy that cannot be fitted is simply not used
+        pr0 = np.random.default_rng(case["gseed"])
+        Du = np.unique(D, axis=0)
+        m0 = int(pr0.integers(2, max(3, min(len(Du), 14)) + 1))
+        if m0 == len(G):
+            m0 = m0 + 1 if m0 < len(Du) else m0 - 1
+        try:
+            if m0 < 2 or m0 > len(Du):
+                raise ValueError("no second grid")
+            with Probe():
+                e0 = SparseKDE(D.copy(), None if w is None else w.copy(), metric_params=mp, **case["loc"])
+                e0.fit(Du[pr0.permutation(len(Du))[:m0]].copy())
+                q0 = D[pr0.permutation(len(D))[:5]] + 0.01 * pr0.normal(size=(min(5, len(D)), D.shape[1]))
+                if np.all(np.isfinite(e0.bandwidth_)):
+                    e0.score_samples(q0)
+                    e0.score(q0)
+            est = e0
+            probe.past = True
+        except Exception:  # noqa: BLE001  (watchdog, singular decoy bandwidths, ...)
+            est = None
     with probe:
-        est = SparseKDE(D.copy(), None if w is None else w.copy(), metric_params=mp, **case["loc"])
+        if est is None:
+            est = SparseKDE(D.copy(), None if w is None else w.copy(), metric_params=mp, **case["loc"])
         est.fit(G.copy())
     return est
 
@@ -363,6 +388,9 @@ def run(case, j):
             j.judged -= 1
             raise Skip("proviso:localisation-reaches-no-other-grid-point(exception)")
         raise
+    if getattr(pr, "past", False):
+        j.note("estimators_with_a_past")
+        j.tag("history:refit-on-other-grid-after-scoring")
     if pr.missing:
         j.note("wrap_points_missing", len(pr.missing))
     labels, tie_free, wn = _judge_model(case, j, est, pr, D, w, G, cell, "base")
